@@ -47,7 +47,9 @@ func init() {
 
 type c03jCase struct {
 	Kind   string          `json:"kind"` // brjoin
-	W      *gcase.Workflow `json:"w"`
+	Mode   string          `json:"mode"` // workflow (eager; field w) | dag (all-predecessor Graph in batch mode; field g)
+	W      *gcase.Workflow `json:"w,omitempty"`
+	G      *gcase.Graph    `json:"g,omitempty"`
 	Input  string          `json:"input"`
 	Orders [][]string      `json:"orders"`
 	Shape  string          `json:"shape,omitempty"` // join | random
@@ -64,6 +66,9 @@ type c03jModelRun struct {
 type c03jModel struct {
 	Runs []c03jModelRun `json:"runs"`
 	Same bool           `json:"same"`
+	// mode dag: the model's run and the failures other completion orders may report
+	Result *gcase.ResultJ  `json:"result,omitempty"`
+	Alts   []gcase.ResultJ `json:"alts,omitempty"`
 	WF   bool           `json:"wf"`
 	WF2  bool           `json:"wf2"`
 	WF3  bool           `json:"wf3"`
@@ -101,24 +106,29 @@ type c03jRun struct {
 	collOnce  map[string]*sync.Once
 	gate      map[string]chan struct{}
 	gateOnce  map[string]*sync.Once
+	left      map[string]chan struct{}
+	leftOnce  map[string]*sync.Once
 	free      chan struct{} // closed: every gate is open
 	freeOnce  sync.Once
 	runDone   chan struct{}
 	closed    bool
 }
 
-func c03jNewRun(w *gcase.Workflow) *c03jRun {
+func c03jNewRun(keys []string) *c03jRun {
 	r := &c03jRun{started: map[string]chan struct{}{}, startOnce: map[string]*sync.Once{}, collected: map[string]chan struct{}{},
 		collOnce: map[string]*sync.Once{}, gate: map[string]chan struct{}{}, gateOnce: map[string]*sync.Once{},
+		left: map[string]chan struct{}{}, leftOnce: map[string]*sync.Once{},
 		free: make(chan struct{}), runDone: make(chan struct{})}
 	r.cond = sync.NewCond(&r.mu)
-	for _, n := range w.Nodes {
-		r.started[n.Key] = make(chan struct{})
-		r.startOnce[n.Key] = &sync.Once{}
-		r.collected[n.Key] = make(chan struct{})
-		r.collOnce[n.Key] = &sync.Once{}
-		r.gate[n.Key] = make(chan struct{})
-		r.gateOnce[n.Key] = &sync.Once{}
+	for _, k := range keys {
+		r.started[k] = make(chan struct{})
+		r.startOnce[k] = &sync.Once{}
+		r.collected[k] = make(chan struct{})
+		r.collOnce[k] = &sync.Once{}
+		r.gate[k] = make(chan struct{})
+		r.gateOnce[k] = &sync.Once{}
+		r.left[k] = make(chan struct{})
+		r.leftOnce[k] = &sync.Once{}
 	}
 	return r
 }
@@ -145,11 +155,14 @@ func (r *c03jRun) enter(key string) {
 	}
 }
 
-func (r *c03jRun) leave() {
+func (r *c03jRun) leave(key string) {
 	r.mu.Lock()
 	r.active--
 	r.cond.Broadcast()
 	r.mu.Unlock()
+	if o, ok := r.leftOnce[key]; ok {
+		o.Do(func() { close(r.left[key]) })
+	}
 }
 
 func (r *c03jRun) collect(key string) {
@@ -186,7 +199,7 @@ func c03jBuild(w *gcase.Workflow, r *c03jRun) (*compose.Workflow[gcase.M, gcase.
 		nodeOf[n.Key] = &w.Nodes[i]
 		f := func(ctx context.Context, in gcase.M) (gcase.M, error) {
 			r.enter(n.Key)
-			defer r.leave()
+			defer r.leave(n.Key)
 			if n.Body.Op == "fail" {
 				return nil, &gcase.UserErr{ID: n.Body.ID}
 			}
@@ -366,7 +379,7 @@ func (r *c03jRun) releaser(m *c03jModelRun, rec *compose.VerifRecorder, ro *c03j
 
 func c03jRunOnce(c *c03jCase, prio []string, m *c03jModelRun) *c03jRunObs {
 	ro := &c03jRunObs{Priority: prio, Entered: []string{}, Completed: []string{}, Steps: [][]string{}}
-	r := c03jNewRun(c.W)
+	r := c03jNewRun(c03jKeys(c.W))
 	var wf *compose.Workflow[gcase.M, gcase.M]
 	var err error
 	if p, pv := vh.Safely(func() { wf, err = c03jBuild(c.W, r) }); p {
@@ -452,6 +465,12 @@ func c03jNorm(r gcase.ResultJ) gcase.ResultJ {
 var c03jHangs int
 
 func c03jOne(ctx *vh.Ctx, c *c03jCase) error {
+	if c.Mode == "" {
+		c.Mode = "workflow"
+	}
+	if c.Mode == "dag" {
+		return c03jOneDag(ctx, c)
+	}
 	ctx.Progress.Mark(c)
 	raw, err := ctx.Oracle.Ask("C03", c)
 	if err != nil {
@@ -547,6 +566,334 @@ func c03jOne(ctx *vh.Ctx, c *c03jCase) error {
 			"two successful runs of the same workflow on the same input return different values, depending on the order in which concurrently running nodes finish: "+strings.Join(parts, " | "))
 	}
 	return nil
+}
+
+// ---- mode dag: an all-predecessor Graph with branches, batch execution ----
+
+// the node keys of a graph case whose bodies are gated (pass-through nodes have no body)
+func c03jGraphKeys(g *gcase.Graph) []string {
+	ks := []string{}
+	for _, n := range g.Nodes {
+		if n.Body.Op == "tag" || n.Body.Op == "fail" {
+			ks = append(ks, n.Key)
+		}
+	}
+	return ks
+}
+
+// releaserDag follows the supersteps of the implementation: the gated nodes of every step are
+// released in priority order, each after the previous one has returned and its executor has
+// pushed the finished task (so the order of the `finish` events, which is the order in which
+// waitAll hands the step back, is the priority order).
+func (r *c03jRun) releaserDag(prio []string, rec *compose.VerifRecorder, done chan struct{}) {
+	defer close(done)
+	for i := 0; ; i++ {
+		if !r.poll(func() bool { return len(c03jSteps(rec)) > i }) {
+			return
+		}
+		var step []string
+		for _, k := range c03jSteps(rec)[i] {
+			if _, ok := r.gate[k]; ok {
+				step = append(step, k)
+			}
+		}
+		for _, k := range step {
+			if !r.wait(r.started[k]) {
+				return
+			}
+		}
+		for _, k := range c03fPrio(prio, step) {
+			r.open(k)
+			if !r.wait(r.left[k]) {
+				return
+			}
+			if !c03WaitPushed(k, r.runDone) {
+				return
+			}
+		}
+	}
+}
+
+func c03jRunDag(c *c03jCase, prio []string) *c03jRunObs {
+	ro := &c03jRunObs{Priority: prio, Entered: []string{}, Completed: []string{}, Steps: [][]string{}, Script: "followed"}
+	r := c03jNewRun(c03jGraphKeys(c.G))
+	bo := &gcase.BuildOpts{Wrap: func(path string, f func(ctx context.Context, in gcase.M) (gcase.M, error)) func(ctx context.Context, in gcase.M) (gcase.M, error) {
+		return func(ctx context.Context, in gcase.M) (gcase.M, error) {
+			if _, ok := r.gate[path]; ok {
+				r.enter(path)
+				defer r.leave(path)
+			}
+			return f(ctx, in)
+		}
+	}}
+	var cg *compose.Graph[gcase.M, gcase.M]
+	var err error
+	if p, pv := vh.Safely(func() { cg, err = gcase.Build(c.G, "", bo) }); p {
+		ro.Class, ro.Detail = "build-error", fmt.Sprint("panic: ", pv)
+		return ro
+	}
+	if err != nil {
+		ro.Class, ro.Detail = "build-error", err.Error()
+		return ro
+	}
+	ctx := context.Background()
+	var run compose.Runnable[gcase.M, gcase.M]
+	if p, pv := vh.Safely(func() { run, err = cg.Compile(ctx, gcase.CompileOpts(c.G)...) }); p {
+		ro.Class, ro.Detail = "compile-error", fmt.Sprint("panic: ", pv)
+		return ro
+	}
+	if err != nil {
+		ro.Class, ro.Detail = "compile-error", err.Error()
+		return ro
+	}
+	grec := gcase.NewRecorder()
+	rctx := grec.Ctx(ctx)
+	compose.VerifC03Reset(0, false)
+	relDone := make(chan struct{})
+	go r.releaserDag(prio, grec.Steps, relDone)
+	var res gcase.M
+	var runErr error
+	finished := false
+	panicked, pv := vh.Safely(func() {
+		finished = vh.WithTimeout(20*time.Second, func() {
+			res, runErr = run.Invoke(rctx, gcase.M{"in": c.Input})
+			r.mu.Lock()
+			r.closed = true
+			r.mu.Unlock()
+		})
+	})
+	r.mu.Lock()
+	r.closed = true
+	ro.Entered = append(ro.Entered, r.entered...)
+	r.mu.Unlock()
+	close(r.runDone)
+	<-relDone
+	r.freeAll()
+	quiet := make(chan struct{})
+	go func() {
+		r.mu.Lock()
+		for r.active > 0 {
+			r.cond.Wait()
+		}
+		r.mu.Unlock()
+		close(quiet)
+	}()
+	select {
+	case <-quiet:
+	case <-time.After(10 * time.Second):
+	}
+	ro.Steps = c03jSteps(grec.Steps)
+	switch {
+	case panicked:
+		ro.Class, ro.Detail = "panic-escaped", fmt.Sprint(pv)
+	case !finished:
+		ro.Class = "hang"
+	default:
+		ro.Class = "ran"
+		if runErr != nil {
+			ro.Result = gcase.Classify(runErr)
+		} else {
+			s := gcase.Render(res)
+			ro.Result = gcase.ResultJ{Ok: &s}
+		}
+	}
+	return ro
+}
+
+// a node that is an end of a branch and also has an edge from another node
+func c03jMixedJoinGraph(g *gcase.Graph) bool {
+	for _, b := range g.Branches {
+		for _, e := range b.Ends {
+			for _, ed := range g.Edges {
+				if ed[1] == e && ed[0] != b.From {
+					return true
+				}
+			}
+			for _, b2 := range g.Branches {
+				if b2.From != b.From {
+					for _, e2 := range b2.Ends {
+						if e2 == e {
+							return true
+						}
+					}
+				}
+			}
+		}
+	}
+	return false
+}
+
+func c03jOneDag(ctx *vh.Ctx, c *c03jCase) error {
+	ctx.Progress.Mark(c)
+	raw, err := ctx.Oracle.Ask("C03", c)
+	if err != nil {
+		return err
+	}
+	var model c03jModel
+	if err := json.Unmarshal(raw, &model); err != nil || model.Result == nil {
+		return fmt.Errorf("oracle brjoin (dag) answer: %v: %s", err, raw)
+	}
+	want := c03jNorm(*model.Result)
+	obs := &c03jObs{}
+	dis := func(sig, what string) {
+		ctx.Res.Disagree(vh.Disagreement{Signature: sig, What: what, Case: c, Model: model, Impl: obs})
+	}
+	nontrivial := c03jMixedJoinGraph(c.G)
+	gj, _ := json.Marshal(c.G)
+	ctx.Res.Count(fmt.Sprintf("brjoin|dag|%s|%s|%v", gj, c.Input, c.Orders), nontrivial && len(c.Orders) >= 2)
+	ctx.Res.Dist("family:brjoin")
+	ctx.Res.Dist("brjoin:dag:shape:" + c.Shape)
+	ctx.Res.Dist(fmt.Sprintf("brjoin:dag:branches:%d", len(c.G.Branches)))
+	if nontrivial {
+		ctx.Res.Dist("brjoin:dag:join-with-branch-end-and-edge")
+	}
+	ctx.Res.Sample(c)
+	okValues := map[string][]string{}
+	for _, prio := range c.Orders {
+		if c03jHangs >= 2 {
+			break
+		}
+		ro := c03jRunDag(c, prio)
+		obs.Runs = append(obs.Runs, ro)
+		ctx.Res.Dist("brjoin:dag:class:" + ro.Class)
+		switch ro.Class {
+		case "build-error", "compile-error":
+			// what the random graph generator produces is "mostly valid": a case that does not
+			// compile exercises nothing
+			ctx.Res.Dist("brjoin:dag:does-not-compile")
+			return nil
+		case "hang":
+			c03jHangs++
+			dis("C03:brjoin:hang:dag", fmt.Sprintf("Invoke did not return within 20 s under the completion priority %v", prio))
+			continue
+		case "panic-escaped":
+			dis("C03:brjoin:panic-escaped:dag", "a panic escaped Invoke: "+ro.Detail)
+			continue
+		}
+		ro.Result = c03jNorm(ro.Result)
+		if ro.Result.Ok != nil {
+			okValues[*ro.Result.Ok] = append(okValues[*ro.Result.Ok], strings.Join(prio, ","))
+			ctx.Res.Dist("brjoin:dag:result:ok")
+		} else {
+			ctx.Res.Dist("brjoin:dag:result:error")
+		}
+		match := vh.CanonEq(ro.Result, want)
+		for _, a := range model.Alts {
+			if vh.CanonEq(ro.Result, c03jNorm(a)) {
+				match = true
+			}
+		}
+		if !match {
+			dis("C03:brjoin:result-differs:dag", fmt.Sprintf("the result of the batch run under the completion priority %v differs from the model's run (supersteps of the implementation: %v)", prio, ro.Steps))
+		}
+	}
+	if len(okValues) > 1 {
+		var parts []string
+		for v, ps := range okValues {
+			parts = append(parts, fmt.Sprintf("%s under priorities %v", v, ps))
+		}
+		sort.Strings(parts)
+		dis("C03:brjoin:result-depends-on-completion-order:dag",
+			"two successful runs of the same graph on the same input return different values, depending on the order in which the nodes of a step finish: "+strings.Join(parts, " | "))
+	}
+	return nil
+}
+
+// c03jGenJoinGraph: the join shapes of c03jGenJoin as an all-predecessor Graph: A branches
+// (the branch carries A's output), B reaches the joins by plain edges; A and B may sit at
+// different depths, so that B's completion and A's skip reach a join in different supersteps.
+func c03jGenJoinGraph(r *vh.Rand) *gcase.Graph {
+	g := &gcase.Graph{Mode: "dag"}
+	add := func(k string) { g.Nodes = append(g.Nodes, gcase.Node{Key: k, Body: gcase.Body{Op: "tag"}}) }
+	edge := func(a, b string) { g.Edges = append(g.Edges, [2]string{a, b}) }
+	front := func(k string, pct int) {
+		add(k)
+		if r.Chance(pct) {
+			add(k + "0")
+			edge("start", k+"0")
+			edge(k+"0", k)
+			if r.Chance(30) {
+				add(k + "00")
+				g.Edges[len(g.Edges)-2] = [2]string{"start", k + "00"}
+				edge(k+"00", k+"0")
+			}
+		} else {
+			edge("start", k)
+		}
+	}
+	front("A", 45)
+	front("B", 25)
+	hasC := r.Chance(30)
+	if hasC {
+		front("C", 30)
+	}
+	ends := []string{"X", "Y"}
+	add("X")
+	add("Y")
+	if r.Chance(25) {
+		ends = append(ends, "Y2")
+		add("Y2")
+	}
+	multi := r.Chance(40)
+	table := [][]string{}
+	for i := r.Range(1, 3); i > 0; i-- {
+		if multi {
+			row := []string{}
+			for _, e := range ends {
+				p := 45
+				if e == "X" {
+					p = 70
+				}
+				if r.Chance(p) {
+					row = append(row, e)
+				}
+			}
+			table = append(table, row)
+		} else if r.Chance(60) {
+			table = append(table, []string{"X"})
+		} else {
+			table = append(table, []string{ends[r.Intn(len(ends))]})
+		}
+	}
+	g.Branches = append(g.Branches, gcase.Branch{From: "A", Ends: ends, Multi: multi, Table: table})
+	sinks := append([]string{}, ends...)
+	cUsed := false
+	for _, y := range ends[1:] {
+		src := "B"
+		if hasC && r.Chance(40) {
+			src, cUsed = "C", true
+		}
+		edge(src, y)
+		if hasC && src == "B" && r.Chance(30) {
+			edge("C", y)
+			cUsed = true
+		}
+	}
+	if hasC && !cUsed {
+		edge("C", "end")
+	}
+	if r.Chance(60) {
+		add("P")
+		edge("B", "P")
+		sinks = append(sinks, "P")
+	}
+	if r.Chance(40) {
+		add("Z")
+		y := ends[1+r.Intn(len(ends)-1)]
+		edge(y, "Z")
+		if r.Chance(50) {
+			edge("X", "Z")
+		}
+		for i, s := range sinks {
+			if s == y {
+				sinks[i] = "Z"
+			}
+		}
+	}
+	for _, s := range sinks {
+		edge(s, "end")
+	}
+	return g
 }
 
 // c03jMixedJoin: some node is an end of a branch and has, besides, a control predecessor of
@@ -757,7 +1104,7 @@ func c03jDirected() []*c03jCase {
 		for _, k := range nodes {
 			w.Nodes = append(w.Nodes, gcase.WNode{Key: k, Body: tag})
 		}
-		return &c03jCase{Kind: "brjoin", W: w, Input: "x", Orders: orders, Shape: "directed", Note: note}
+		return &c03jCase{Kind: "brjoin", Mode: "workflow", W: w, Input: "x", Orders: orders, Shape: "directed", Note: note}
 	}
 	d := func(f, t, k string) gcase.WDep { return gcase.WDep{From: f, To: t, Kind: k} }
 	return []*c03jCase{
@@ -806,7 +1153,7 @@ func c03jFamily(ctx *vh.Ctx) error {
 	}
 	n := ctx.N(150, 1500)
 	for i := 0; i < n && live(); i++ {
-		c := &c03jCase{Kind: "brjoin", Input: "x"}
+		c := &c03jCase{Kind: "brjoin", Mode: "workflow", Input: "x"}
 		if i%3 != 2 {
 			c.W, c.Shape = c03jGenJoin(ctx.Rng), "join"
 		} else {
@@ -816,6 +1163,19 @@ func c03jFamily(ctx *vh.Ctx) error {
 		c.Orders = c03jOrders(ctx.Rng, c03jKeys(c.W), ctx.N(2, 3))
 		if err := c03jOne(ctx, c); err != nil {
 			return err
+		}
+		if i%3 == 0 {
+			// the same family as an all-predecessor Graph in batch mode
+			d := &c03jCase{Kind: "brjoin", Mode: "dag", Input: fmt.Sprintf("x%d", ctx.Rng.Intn(4))}
+			if i%2 == 0 {
+				d.G, d.Shape = c03jGenJoinGraph(ctx.Rng), "join"
+			} else {
+				d.G, d.Shape = gcase.Gen(ctx.Rng, gcase.GenOpts{Mode: "dag", MaxNodes: 7, NoNested: true, FailPct: 0, BranchPct: 40}), "random"
+			}
+			d.Orders = c03jOrders(ctx.Rng, c03jGraphKeys(d.G), 1)
+			if err := c03jOne(ctx, d); err != nil {
+				return err
+			}
 		}
 	}
 	return nil
